@@ -153,7 +153,7 @@ func TestVerifC18BackupRestore(t *testing.T) {
 			canon.WriteString("w;")
 		}
 		nfiles := len(b.tsmFiles(1))
-		kind := rapid.SampledFrom([]string{"backup-restore", "backup-restore", "backup-import", "export-import", "export-import", "backup-with-write", "export-bounded"}).Draw(rt, "kind")
+		kind := rapid.SampledFrom([]string{"backup-restore", "backup-restore", "backup-import", "export-import", "export-import", "backup-with-write", "export-bounded", "backup-during-snapshot"}).Draw(rt, "kind")
 		before := vCopyModel(b.model)
 		after := before
 		listingBefore := vDirListing(b.shardDir(1))
@@ -189,6 +189,55 @@ func TestVerifC18BackupRestore(t *testing.T) {
 			if !fired {
 				// the write happened after the backup completed: only the pre-write state is allowed
 				after = b.preWriteModel
+			}
+		case "backup-during-snapshot":
+			// another cache snapshot of the shard (the engine's own, or a second backup) is in flight when the
+			// backup arrives: the backup waits for it (CreateSnapshot retries) and then flushes what is left, so
+			// the copy still holds everything. The in-flight snapshot is held at snap.taken for 40 ms.
+			eng, err := b.engine(1)
+			if err != nil {
+				rt.Fatal(err)
+			}
+			inflight, release := make(chan struct{}), make(chan struct{})
+			held := false
+			verifhook.Set(func(ev, path string, n int64) {
+				if ev == "snap.taken" && !held {
+					held = true
+					close(inflight)
+					<-release
+				}
+			})
+			sdone := make(chan error, 1)
+			go func() { sdone <- eng.WriteSnapshot() }()
+			var serr error
+			finished := false
+			select {
+			case <-inflight:
+			case serr = <-sdone: // empty cache: the snapshot returned before writing anything
+				finished = true
+			}
+			t0 := time.Now()
+			bdone := make(chan error, 1)
+			go func() { bdone <- b.store.BackupShard(1, time.Time{}, &stream) }()
+			if !finished {
+				time.Sleep(40 * time.Millisecond)
+				close(release)
+				serr = <-sdone
+			}
+			slow := time.Since(t0) > 500*time.Millisecond
+			berr = <-bdone
+			verifhook.Set(nil)
+			if serr != nil {
+				rt.Fatalf("%s the in-flight snapshot failed: %v", verifkit.Sig("snapshot-error"), serr)
+			}
+			if slow {
+				// CreateSnapshot gives up waiting after about a second and then backs up without the cache
+				// contents by design (skipCacheOk); on a machine this slow the case is not judged
+				stats.Class("skipped:in-flight-snapshot-slower-than-500ms", 1)
+				return
+			}
+			if held {
+				stats.Class("backup-arrived-during-in-flight-snapshot", 1)
 			}
 		case "export-import":
 			berr = b.store.ExportShard(1, time.Unix(0, vMinT), time.Unix(0, vMaxT), &stream)
